@@ -40,22 +40,31 @@ def run_config(cfg):
                   context=dict(ctx), notebook=False)
         leaves = [U.TCtx(label=i) if cfg['filter'] else U.Ta(label=i) for i in range(cfg['n'])]
         tops = [U.Tab(label=100 + i, deps=(leaves[i], leaves[(i + 1) % cfg['n']]), reads=(0, 1)) for i in range(cfg['n'])]
-        tasks = tops + leaves[:1]
+        refs = [U.TRef(label=200 + i) for i in range(2)]
+        reftop = U.TRef(label=210, deps=(refs[0], refs[1]))
+        tasks = tops + leaves[:1] + [reftop]
         res = lab.run_tasks(tasks, disable_progress=True, disable_top=True)
         recs = []
         for f in sorted(os.listdir(recdir)):
             with open(os.path.join(recdir, f)) as fh:
                 recs.append(json.load(fh))
-        keys = {t.label: t.cache_key for t in leaves + tops}
+        keys = {t.label: t.cache_key for t in leaves + tops + refs + [reftop]}
         stored = {}
-        for t in leaves + tops:
+        leaked = []
+        import hashlib
+        for t in leaves + tops + refs + [reftop]:
             with lab._storage.file_handle(t.cache_key, 'metadata.json', mode='r') as fh:
-                md = json.load(fh)
+                raw_md = fh.read()
+            md = json.loads(raw_md)
             md.pop('start_timestamp', None)
             md.pop('duration_seconds', None)
-            stored[t.label] = md
+            with lab._storage.file_handle(t.cache_key, 'data.pickle', mode='rb') as fh:
+                data = fh.read()
+            stored[t.label] = [md, hashlib.sha1(data).hexdigest()]
+            if b'SENTINEL' in data or 'SENTINEL' in raw_md:
+                leaked.append(t.label)
         want_ctx = {t.label: {k: repr(v) for k, v in sorted(t.filter_context(dict(ctx)).items())} for t in leaves + tops}
-        return dict(recs=recs, keys=keys, stored=stored, want_ctx=want_ctx, n_results=len(res),
+        return dict(recs=recs, keys=keys, stored=stored, want_ctx=want_ctx, n_results=len(res), leaked=leaked,
                     values_ok=all(res[t] == ('N', t.label, (('N', t.deps[0].label, ()), ('N', t.deps[1].label, ()))) for t in tops))
     finally:
         os.environ.pop('LV_RECDIR', None)
@@ -76,14 +85,15 @@ def run(prop, report, tier, seed, replay=None):
                     if tier == 'quick' and b == 'spawn' and mw is None and filt:
                         continue
                     cfgs.append(dict(backend=b, max_workers=mw, filter=filt, n=2 if b == 'spawn' else rng.randint(2, 4),
-                                     context={'a': rng.randint(0, 9), 'k0': 'x', 'k1': [1, 2], 'other': rng.random()}))
+                                     context={'a': rng.randint(0, 9), 'k0': 'x', 'k1': [1, 2], 'other': rng.random(),
+                                              'secret': f'SENTINEL-{rng.randrange(10 ** 9)}'}))
     dist = Counter()
     samples = []
     baseline = {}
     caller_pid, caller_thread = os.getpid(), threading.get_ident()
     for cfg in cfgs:
         out = run_config(cfg)
-        starts = [r for r in out['recs'] if r['kind'] == 'start']
+        starts = [r for r in out['recs'] if r['kind'] == 'start' and r['label'] < 200]
         dist[f"backend={cfg['backend']}"] += 1
         dist['task_executions'] += len(starts)
         places = Counter(classify(r, caller_pid, caller_thread) for r in starts)
@@ -103,6 +113,8 @@ def run(prop, report, tier, seed, replay=None):
             if r['context'] != out['want_ctx'][r['label']]:
                 report.violation('C16:wrong-context', f"task {r['label']} saw context {r['context']} instead of its filter_context of the Lab context {out['want_ctx'][r['label']]}", dict(config=cfg))
                 break
+        if out['leaked']:
+            report.violation('C16:context-stored', f"the stored entries of tasks {out['leaked']} contain values of the Lab context", dict(config=cfg))
         if not out['values_ok']:
             report.violation('C16:wrong-values', 'results differ from the expected values', dict(config=cfg))
         # keys and stored entries do not depend on the context / backend
